@@ -113,6 +113,24 @@ package route
 //@   ghostset after CompareAndSwapUint32: sdSwapped = result
 //@   top-ensures (err == nil) == sdSwapped
 
+// Run: once the engine was marked running, the status is 'closed' when Run returns - unconditionally (a Run that
+// fails to listen leaves no 'running' status behind for a later Shutdown to act on).
+//@ ghost var rnMarked bool
+//@ ghost var rnClosed bool
+//@ func Engine.Run(engine) err
+//@   props C18
+//@   abstract
+//@   noinline
+//@   panics
+//@   modifies rnMarked, rnClosed
+//@   ghostset-at-entry rnMarked = false
+//@   ghostset-at-entry rnClosed = false
+//@   ghostset after Engine.MarkAsRunning: rnMarked = (result == nil)
+//@   ghostset after StoreUint32: rnClosed = true
+//@   forbid CompareAndSwapUint32!
+//@   assert before listenAndServe: rnMarked
+//@   top-ensures rnMarked ==> rnClosed
+
 //@ func Engine.IsRunning(engine) r
 //@   props C18
 //@   abstract
